@@ -174,7 +174,7 @@ class SelectContext(Selector):
         context = get_context(value)
         try:
             subcontext = get_recursively(context, self._key)
-        except LenaKeyError:
+        except lena.core.LenaKeyError:
             # we don't specify a special behaviour here
             # (like raise_on_key_error),
             # because the result may be more complicated:
